@@ -74,7 +74,8 @@ func (fc *FuncCtx) writeLoc(st *State, l *Loc, v *Term) {
 
 // nameTerm introduces a fresh constant equal to t (passive form) to keep terms small.
 func (fc *FuncCtx) nameTerm(st *State, base string, t *Term) *Term {
-	if len(t.Args) == 0 {
+	if len(t.Args) == 0 || fc.noName > 0 {
+		// inside quantifier bodies terms may mention bound variables: they must not be named by constants
 		return t
 	}
 	c := fc.freshConst(base, t.Sort)
@@ -441,7 +442,15 @@ func (fc *FuncCtx) readVar(st *State, o *types.Var, pos token.Pos) Val {
 	if o.Pkg() != nil && o.Parent() == o.Pkg().Scope() {
 		// package-level variable: modelled as a constant
 		fc.note("package-level variable treated as constant: " + o.Pkg().Name() + "." + o.Name())
-		return fc.globalVal(o)
+		gv := fc.globalVal(o)
+		if ts := o.Type().String(); (strings.HasSuffix(ts, "errs.Error") || ts == "error") && strings.HasPrefix(o.Name(), "Err") && gv.T.Sort.Kind == "V" {
+			// sentinel errors (package-level errs.New values): non-nil and carrying no blame tags
+			fc.note("package-level sentinel errors are non-nil, never reassigned and carry no identifiable-abort tag")
+			st.assume(Not(Eq(gv.T, Const("nil", SV))))
+			x := BVar("x!sent", SV)
+			st.assume(Forall([]*Term{x}, Not(App("culprit", SBool, gv.T, x)), []*Term{App("culprit", SBool, gv.T, x)}))
+		}
+		return gv
 	}
 	// local declared but not yet in env (e.g. captured or declared in unsupported stmt)
 	s := fc.sortOf(o.Type())
